@@ -8,9 +8,9 @@
 //
 // Sort data larger than can fit in memory.
 //
-//  morass məˈras/
-//  1. An area of muddy or boggy ground.
-//  2. A complicated or confused situation.
+//	morass məˈras/
+//	1. An area of muddy or boggy ground.
+//	2. A complicated or confused situation.
 package morass
 
 import (
@@ -119,6 +119,11 @@ type Morass struct {
 	filesLock sync.Mutex
 	files     files
 
+	// writers counts the chunk writers
+	// started by Push that have not
+	// yet finished.
+	writers sync.WaitGroup
+
 	errLock sync.Mutex
 	_err    error
 }
@@ -180,7 +185,11 @@ func (m *Morass) Push(e LessInterface) error {
 
 	if len(m.chunk) == m.chunkSize {
 		m.writable <- m.chunk
-		go m.write()
+		m.writers.Add(1)
+		go func() {
+			defer m.writers.Done()
+			m.write()
+		}()
 		m.chunk = <-m.pool
 		if err := m.err(); err != nil {
 			return err
@@ -250,6 +259,8 @@ func (m *Morass) Len() int64 { return m.len }
 // Finalise is called to indicate that the last element has been pushed on to the Morass
 // and write out final data.
 func (m *Morass) Finalise() error {
+	// In concurrent mode chunk writers may still be encoding.
+	m.writers.Wait()
 	if err := m.err(); err != nil {
 		return err
 	}
